@@ -63,6 +63,7 @@ typedef struct {
     int sver[3], nsver;
     uint16_t csuite[6]; int ncsuite;
     uint16_t sdis[6]; int nsdis;    /* suites disabled on the server session */
+    struct { uint16_t s; int enable; } shist[4]; int nshist;  /* enable-status history applied instead of sdis (sdis = its net effect) */
     uint16_t cgrp[4], sgrp[4]; int ncgrp, nsgrp, nshares;
     int cec, sec;                   /* ecFlags (TLS <= 1.2 curves); 0 = default */
     uint16_t csig[4], ssig[4]; int ncsig, nssig;
@@ -235,7 +236,11 @@ static int run_setup(run_t *R)
     if (c->dtls) matrixDtlsSetPmtu(-1);
     rc = matrixSslNewServerSession(&w->s[1].ssl, w->s[1].keys, c->client_auth ? c07_cert_cb : NULL, &so);
     if (rc < 0) SETUP_FAIL("NewServerSession", rc);
-    for (i = 0; i < c->nsdis; i++)
+    for (i = 0; i < c->nshist; i++)
+    {
+        if ((rc = matrixSslSetCipherSuiteEnabledStatus(w->s[1].ssl, c->shist[i].s, c->shist[i].enable ? PS_TRUE : PS_FALSE)) < 0) SETUP_FAIL("SetCipherSuiteEnabledStatus(history)", rc);
+    }
+    for (i = 0; i < c->nsdis && !c->nshist; i++)
     {
         if ((rc = matrixSslSetCipherSuiteEnabledStatus(w->s[1].ssl, c->sdis[i], PS_FALSE)) < 0) SETUP_FAIL("SetCipherSuiteEnabledStatus", rc);
     }
@@ -467,11 +472,11 @@ static void run_exec(run_t *R)
 }
 
 /* ----------------------------------------------------------------------------- products -> config */
-enum { P_VER = 0, P_VERC, P_VERD, P_VXS, P_SUITE, P_SUITE12, P_GRP13, P_GRP12, P_SIG13, P_SIG12, P_SIG13CA, P_EMS, P_FB, P_RW, P_NPROD };
-static const char *pname[] = { "ver", "verc", "verd", "vxs", "suite", "suite12", "grp13", "grp12", "sig13", "sig12", "sig13ca", "ems", "fb", "rw" };
+enum { P_VER = 0, P_VERC, P_VERD, P_VXS, P_SUITE, P_SUITE12, P_GRP13, P_GRP12, P_SIG13, P_SIG12, P_SIG13CA, P_EMS, P_FB, P_RW, P_SHIST, P_NPROD };
+static const char *pname[] = { "ver", "verc", "verd", "vxs", "suite", "suite12", "grp13", "grp12", "sig13", "sig12", "sig13ca", "ems", "fb", "rw", "shist" };
 static long psize(int p)
 {
-    static const long n[] = { NVL * NVL, 2 * NVL * NVL, 4, NVL * NVL * 49, 225, 225, 450, 49, 225, 225, 225, 36, 25, 18 };
+    static const long n[] = { NVL * NVL, 2 * NVL * NVL, 4, NVL * NVL * 49, 225, 225, 450, 49, 225, 225, 225, 36, 25, 18, 258 * 9 };
     return n[p];
 }
 
@@ -600,6 +605,30 @@ static int build_cfg(int prod, long idx, ncfg_t *c)
         c->csuite[0] = mode == 1 ? S_RSA : S_PSK; c->ncsuite = 1;
         break;
     }
+    case P_SHIST:
+    {
+        /* every history of <= 3 enable/disable calls over 3 suites on the server session x every client list of 1 or 2 of them */
+        static const int cl[9][2] = { {0,-1}, {1,-1}, {2,-1}, {0,1}, {1,0}, {0,2}, {2,0}, {1,2}, {2,1} };
+        long h = idx / 9;
+        int k = (int) (idx % 9), len, j, dis[3] = { 0, 0, 0 };
+        c->keys = K_RSA;
+        set_vl(c->cver, &c->ncver, 1);
+        set_vl(c->sver, &c->nsver, 1);
+        if (h < 6) { len = 1; } else if (h < 42) { len = 2; h -= 6; } else { len = 3; h -= 42; }
+        c->nshist = len;
+        for (j = len - 1; j >= 0; j--)
+        {
+            int op = (int) (h % 6);
+            h /= 6;
+            c->shist[j].s = POOL_SUITE12[op % 3];
+            c->shist[j].enable = op / 3;
+        }
+        for (j = 0; j < len; j++) dis[c->shist[j].s == POOL_SUITE12[0] ? 0 : c->shist[j].s == POOL_SUITE12[1] ? 1 : 2] = !c->shist[j].enable;
+        for (j = 0; j < 3; j++) if (dis[j]) c->sdis[c->nsdis++] = POOL_SUITE12[j];
+        c->csuite[c->ncsuite++] = POOL_SUITE12[cl[k][0]];
+        if (cl[k][1] >= 0) c->csuite[c->ncsuite++] = POOL_SUITE12[cl[k][1]];
+        break;
+    }
     case P_FB:
         c->keys = K_PSK; c->fallback = 1;
         if (idx < 21)
@@ -668,6 +697,7 @@ static void cfg_text(const ncfg_t *c, char *out, size_t n)
     ADD("%s cs=", c->nsver ? "}" : "");
     for (i = 0; i < c->ncsuite; i++) ADD("%s%04x", i ? "," : "", c->csuite[i]);
     if (c->nsdis) { ADD(" sdis="); for (i = 0; i < c->nsdis; i++) ADD("%s%04x", i ? "," : "", c->sdis[i]); }
+    if (c->nshist) { ADD(" shist="); for (i = 0; i < c->nshist; i++) ADD("%s%c%04x", i ? "," : "", c->shist[i].enable ? '+' : '-', c->shist[i].s); }
     if (c->ncgrp) { ADD(" cg="); for (i = 0; i < c->ncgrp; i++) ADD("%s%04x", i ? "," : "", c->cgrp[i]); ADD("/%d", c->nshares); }
     if (c->nsgrp) { ADD(" sg="); for (i = 0; i < c->nsgrp; i++) ADD("%s%04x", i ? "," : "", c->sgrp[i]); }
     if (c->cec || c->sec) ADD(" cec=%x sec=%x", c->cec, c->sec);
@@ -1176,6 +1206,7 @@ int main(int argc, char **argv)
     for (i = 0; i < psize(P_FB); i++) add_case(P_FB, i, -1, -1);
     for (i = 0; i < psize(P_VXS); i++) if (thorough || (i % NVL < 7 && i / NVL % NVL < 7 && i / (NVL * NVL * 7) == 6)) add_case(P_VXS, i, -1, -1);
     for (i = 0; i < psize(P_SUITE); i++) add_case(P_SUITE, i, -1, -1);
+    for (i = 0; i < psize(P_SHIST); i++) add_case(P_SHIST, i, -1, -1);
     for (i = 0; i < psize(P_GRP12); i++) add_case(P_GRP12, i, -1, -1);
 #define SLICE(i) (thorough || (i) / 15 == 14 || (i) / 15 == 0 || (i) / 15 == 1 || (i) / 15 == 3 || (i) / 15 == 7)
     for (i = 0; i < psize(P_GRP13); i++) { ncfg_t t; if ((thorough || (i < 225 && SLICE(i))) && build_cfg(P_GRP13, i, &t) == 0) add_case(P_GRP13, i, -1, -1); }
